@@ -165,7 +165,9 @@ static int take_choice(int nopt, int altcost, int kind, const int* opts) {
     p->altcost = (unsigned char)altcost;
     p->kind = (unsigned char)kind;
     for (int i = 0; i < VS_MAXOPT; ++i) p->tids[i] = i < nopt ? (unsigned char)opts[i] : 255;
-    p->state = SH->user[4] ? global_state_hash() : 0;
+    /* a notify_one target choice follows the scheduling point of the same operation without any state change in
+     * between: the point kind is part of the abstract state so that the two are never taken for one state */
+    p->state = SH->user[4] ? mix64(global_state_hash(), kind == VS_K_NOTIFY ? 0x6e6f74696679ull : 0) : 0;
     SH->npoints = idx + 1;
     return c;
 }
